@@ -13,6 +13,7 @@ func TestVerifReplay(t *testing.T) {
 		"VerifC17Walks":            VerifC17Walks,
 		"VerifC12SubmitQuick":      VerifC12SubmitQuick,
 		"VerifC12SubmitThorough":   VerifC12SubmitThorough,
+		"VerifC12SelectQuick":      VerifC12SelectQuick,
 		"VerifC06Quick":            VerifC06Quick,
 		"VerifC13Quick":            VerifC13Quick,
 		"VerifC13Thorough":         VerifC13Thorough,
